@@ -268,6 +268,49 @@ class StrictArgs(Sub):
         return None
 
 
+class Dotted(Sub):
+    name = 'c09.dotted'
+    rule = ('dotted names are names: every non-empty subset of {va, va.b, va.b.c, vb.va, va.price} registered with distinct values '
+            '(va also as a dict / a list holding a "price" / "b" entry): each registered name reads exactly its own value, every '
+            'unregistered one of the five - and va.nosuch, nosuch.va - is #NAME?, whatever its prefix or suffix holds; '
+            'non-trivial = subset where a name and its prefix are both involved')
+    min_cases = 30
+    min_nontrivial = 20
+    NAMES = ['va', 'va.b', 'va.b.c', 'vb.va', 'va.price']
+
+    def cases(self, tier, unit):
+        for mask in range(1, 32):
+            for base in ('num', 'dict', 'list'):
+                yield [mask, base]
+
+    def check(self, env, case):
+        mask, base = case
+        reg = [n for i, n in enumerate(self.NAMES) if mask >> i & 1]
+        vals = dict((n, 100 + i) for i, n in enumerate(self.NAMES))
+        if base == 'dict':
+            vals['va'] = {'price': 7, 'b': {'c': 8}, 'nosuch': 9}
+        elif base == 'list':
+            vals['va'] = ['price', 'b', 5]
+        p = env.new_parser()
+        for n in reg:
+            p.set_variable(n, vals[n])
+        if any(n != 'va' and n.startswith('va.') for n in reg) or 'va' in reg:
+            env.nt()
+        for n in self.NAMES + ['va.nosuch', 'nosuch.va', 'va.b.nosuch']:
+            env.evals += 1
+            o = env.out(p.parse(n))
+            if n in reg:
+                want = ['v', enc(vals[n])] if not isinstance(vals[n], dict) else None
+                if want is not None and o != want:
+                    return fail('with %r registered, %r reads %r, expected its own value %r' % (reg, n, o, vals[n]), want, o)
+                if want is None and o[0] != 'v':
+                    return fail('with %r registered, %r (a dict) reads %r' % (reg, n, o), 'the dict', o)
+            elif o != ['e', '#NAME?']:
+                return fail('with only %r registered (va = %r), the unregistered name %r evaluates to %r, expected #NAME?' % (
+                    reg, vals['va'] if 'va' in reg else None, n, o), ['e', '#NAME?'], o)
+        return None
+
+
 class Documented(Sub):
     name = 'c09.documented'
     rule = ('every name in the "Supported" section of SUPPORTED_FORMULAS.md: NAME(...) at arities 0..3 is not #NAME? for at '
@@ -542,4 +585,4 @@ class NameScale(Sub):
         return None
 
 
-SUBS = [Names(), Values(), Custom(), StrictArgs(), Documented(), Predefined(), Unknown(), Rebind(), NameScale()]
+SUBS = [Names(), Values(), Custom(), StrictArgs(), Dotted(), Documented(), Predefined(), Unknown(), Rebind(), NameScale()]
